@@ -216,7 +216,7 @@ const (
 	craftVariants
 )
 
-// sigStructure builds Sig_structure = ["Signature1", protected, external_aad = h'', payload].
+// sigStructure builds Sig_structure = ["Signature1", protected, external_aad = h”, payload].
 func sigStructure(prot, payload []byte) []byte {
 	out := []byte{0x84, 0x6a}
 	out = append(out, "Signature1"...)
